@@ -697,6 +697,7 @@ pub fn reg_cases(r: &mut Rng, n: usize) -> Vec<Case> {
                     live.push((id, li)); ops.push(Op::RCreate(id, LANGS[li].to_string()));
                 }
                 2 if can_use && r.chance(1, 3) => { let k = r.below(live.len()); let (id, _) = live.remove(k); titles.retain(|e| e.0 != id); ops.push(Op::RDestroy(id)); }
+                3 if can_use && r.chance(1, 6) => { let (id, _) = *r.pick(&live); titles.retain(|e| e.0 != id); ops.push(Op::RClear(id)); }
                 3 if can_use => { let (id, _) = *r.pick(&live); ops.push(Op::RLimit(id, *r.pick(&[0usize, 1, 2, 3, 10, 11, 25, 100, 95, 60, 55, 40, 1000, 999, 12, 100, 95]))); }
                 4 if can_use => { let (id, _) = *r.pick(&live); let (a, b) = r.pick(&[("[", "]"), ("{{", "}}"), ("", ""), ("<", ">")]).clone(); ops.push(Op::RMarkers(id, a.to_string(), b.to_string())); }
                 5 | 6 | 7 if can_use => {
